@@ -36,6 +36,8 @@ def echo_program(r, hazards=None):
     """Functions that write every parameter, in order, to distinct device cells and return a value built from
     them; callers write every result to distinct cells.  Call graph: each function may call earlier ones."""
     hz = hazards or {}
+    if r.random() < 0.15:
+        return suffix_program(r)
     cells = _Cells(r)
     lines = []
     funcs = []  # (name, nparams, ret, depth)
@@ -131,6 +133,46 @@ def echo_program(r, hazards=None):
             else:
                 main.append(f"        {g[0]}({args})")
     return HEADER + "\n".join(lines + main) + "\n"
+
+
+def suffix_program(r):
+    """A helper that is called once (inlined with its labels when inlining is on) inside a host whose name is a
+    suffix of the helper's name (pre_tick / tick, substep / step), next to calls of a function that stays a
+    subroutine: '<host>end' must not be confused with '<helper>end'."""
+    cells = _Cells(r)
+    base = r.choice(["tick", "update", "run", "step", "check"])
+    pre = r.choice(["pre_", "do_", "sub", "x_", "re"]) + base
+    hlp = r.choice(["helper", "fn0", "emit"])
+    hret = r.random() < 0.4
+    L = [f"def {hlp}(v):", f"    {cells.next()} = v"]
+    if hret:
+        L.append("    return v + 1")
+    npre = r.randint(0, 2)
+    pp = [f"a{j}" for j in range(npre)]
+    L.append(f"def {pre}({', '.join(pp)}):")
+    L.append(f"    {cells.next()} = {pp[0] if pp else r.randint(1, 9)}")
+    if r.random() < 0.5:
+        L += [f"    if {r.choice(IN_BOOL)}:", "        return"]
+        L.append(f"    {cells.next()} = {pp[-1] if pp else r.randint(10, 19)}")
+    if r.random() < 0.3:
+        L.append(f"    {hlp}({r.randint(20, 29)})")
+    ret = r.random() < 0.5
+    L.append(f"def {base}(v):")
+    parts = [[f"    {pre}({', '.join(_arg(r, ['v']) for _ in pp)})"], [f"    {cells.next()} = v"]]
+    for _ in range(r.randint(1, 2)):
+        parts.append([f"    {cells.next()} = {hlp}({_arg(r, ['v'])})"] if hret and r.random() < 0.6 else [f"    {hlp}({_arg(r, ['v'])})"])
+    r.shuffle(parts)
+    if r.random() < 0.3:
+        parts.insert(r.randint(0, len(parts)), [f"    if {r.choice(IN_BOOL)}:", "        return" + (" 77" if ret else "")])
+    for q in parts:
+        L += q
+    if ret:
+        L.append("    return v * 2")
+    main = ["while True:", "    yield_()"]
+    calls = [f"    {base}({_arg(r, [])})" if not ret or r.random() < 0.5 else f"    {cells.next()} = {base}({_arg(r, [])})" for _ in range(r.randint(2, 3))]
+    calls += [f"    {hlp}({r.randint(1, 9)})" for _ in range(r.randint(0, 2))]
+    r.shuffle(calls)
+    return HEADER + "\n".join(L + main + calls) + "\n"
 
 
 def _arg(r, params):
@@ -447,3 +489,40 @@ def n_skeletons(maxdepth=2):
     if maxdepth not in _SHAPES:
         _SHAPES[maxdepth] = skeleton_shapes(maxdepth)
     return 3 * len(_SHAPES[maxdepth])
+
+
+# ------------------------------------------------------------------------------ long lines only
+def longline_program(r):
+    """A terminating script in which every statement compiles to one instruction: with original_code_as_comment every
+    emitted line carries a comment at column >= 48, so (non-compact) no line is short enough to take the version tag."""
+    L = []
+    vs = []
+    for j in range(r.randint(1, 3)):
+        v = r.choice(["level", "temp", "t", "amount"]) + str(j)
+        L.append(f"{v} = d{r.randrange(6)}.{r.choice(['Pressure', 'Temperature', 'Setting', 'Ratio'])}")
+        vs.append(v)
+    names = ["lamp", "heater one", "Bank1", "x9"]
+
+    def store(ind):
+        pad = "    " * ind
+        k = r.random()
+        if k < 0.45:
+            return f'{pad}{r.choice(["WallLights", "WallHeaters", "LogicSorters"])}["{r.choice(names)}"].{r.choice(["On", "Lock"])} = {r.choice(["1", "0"] + vs)}'
+        return f"{pad}d{r.randrange(6)}.{r.choice(['Setting', 'On', 'Lock', 'Mode'])} = {r.choice(vs + ['1', '7'])}"
+
+    def block(ind, depth):
+        out = []
+        for _ in range(r.randint(1, 3)):
+            if depth < 3 and r.random() < 0.5:
+                out.append(f"{'    ' * ind}if {r.choice(vs)} {r.choice(['>', '<', '>=', '<=', '==', '!='])} {r.choice(['5000', '3', '100.5', '0'])}:")
+                out += block(ind + 1, depth + 1)
+            else:
+                out.append(store(ind))
+        return out
+
+    L += block(0, 0)
+    if not any(l.startswith("if ") for l in L):
+        L.append(f"if {vs[0]} > 5000:")
+        L.append(store(1))
+    L.append(f"db.Setting = {vs[0]}")
+    return HEADER + "\n".join(L) + "\n"
